@@ -283,7 +283,7 @@ CallBuiltin(d, env, name, args, ctx) ==
          IF n \notin {2, 3} THEN Bad ELSE
          LET a == ToStr(d, A(1)) p == ToNum(d, A(2)) l == IF n = 3 THEN ToNum(d, A(3)) ELSE Nan IN
          \* (the upper bound round(p) + round(l) must be determined as well)
-         IF unkS(a) \/ HasZ(a) \/ IsUnk(p) \/ IsUnk(l) \/ IsUnk(Round(p)) \/ (n = 3 /\ IsUnk(Add(Round(p), Round(l)))) THEN Err("unk")
+         IF unkS(a) \/ HasWide(a) \/ IsUnk(p) \/ IsUnk(l) \/ IsUnk(Round(p)) \/ (n = 3 /\ IsUnk(Add(Round(p), Round(l)))) THEN Err("unk")
          ELSE StrV(Chs(Substring(a, p, n = 3, l)))
     [] name = <<"s","t","r","i","n","g","-","l","e","n","g","t","h">> ->
          IF n > 1 THEN Bad ELSE IF unkS(S1) THEN Err("unk") ELSE NumV(NInt(CharCount(S1)))
@@ -291,7 +291,7 @@ CallBuiltin(d, env, name, args, ctx) ==
          IF n > 1 THEN Bad ELSE IF unkS(S1) THEN Err("unk") ELSE StrV(NormalizeSpace(S1))
     [] name = <<"t","r","a","n","s","l","a","t","e">> ->
          IF n # 3 THEN Bad ELSE LET a == ToStr(d, A(1)) b == ToStr(d, A(2)) c == ToStr(d, A(3)) IN
-         IF unkS(a) \/ unkS(b) \/ unkS(c) \/ ~ZSafe(a, b) \/ HasZ(c) THEN Err("unk") ELSE StrV(Translate(a, b, c))
+         IF unkS(a) \/ unkS(b) \/ unkS(c) \/ ~ZSafe(a, b) \/ HasWide(c) THEN Err("unk") ELSE StrV(Translate(a, b, c))
     [] name = <<"b","o","o","l","e","a","n">> -> IF n # 1 THEN Bad ELSE ToBoolV(d, A(1))
     [] name = <<"n","o","t">> ->
          IF n # 1 THEN Bad ELSE LET b == ToBoolV(d, A(1)) IN IF IsErr(b) THEN b ELSE BoolV(~b.v)
